@@ -1180,38 +1180,38 @@ namespace Pistache::Http
         response.send(Code::Request_Timeout);
     }
 
-    Timeout::~Timeout() { disarm(); }
+    Timeout::~Timeout()
+    {
+        // a moved-from Timeout holds nothing
+        if (state_)
+            disarm();
+    }
 
     void Timeout::disarm()
     {
-        if (transport && armed)
+        if (state_ && state_->transport && state_->armed)
         {
-            transport->disarmTimer(timerFd);
+            state_->transport->disarmTimer(state_->timerFd);
         }
     }
 
-    bool Timeout::isArmed() const { return armed; }
+    bool Timeout::isArmed() const { return state_ && state_->armed; }
 
     Timeout::Timeout(Tcp::Transport* transport_, Http::Version version, Handler* handler_,
                      std::weak_ptr<Tcp::Peer> peer_)
-        : handler(handler_)
-        , version(version)
-        , transport(transport_)
-        , armed(false)
-        , timerFd(-1)
-        , peer(peer_)
+        : state_(std::make_shared<State>(handler_, version, transport_, std::move(peer_)))
     { }
 
-    void Timeout::onTimeout(uint64_t /*numWakeup*/)
+    void Timeout::onTimeout(const State& state, uint64_t /*numWakeup*/)
     {
-        auto sp = peer.lock();
+        auto sp = state.peer.lock();
         if (!sp)
             return;
 
-        ResponseWriter response(version, transport, handler, peer);
+        ResponseWriter response(state.version, state.transport, state.handler, state.peer);
         auto parser         = Handler::getParser(sp);
         const auto& request = parser->request;
-        handler->onTimeout(request, std::move(response));
+        state.handler->onTimeout(request, std::move(response));
     }
 
     void Handler::setMaxRequestSize(size_t value) { maxRequestSize_ = value; }
